@@ -472,6 +472,11 @@ def export_specs(tier, seed):
             s2["problem"].update({"delta_minutes": 20, "start_time": "2024-05-06T07:00:00"})
             cal.append((name + ".cal", s2))
     out += cal
+    # long horizons (nothing in a chart or a sheet may scale with the horizon): a milestone and a fixed task on a worker
+    out.append(("long", fam.base(30, [fam.fx("t0", 4), fam.zr("t1"), fam.fx("t2", 2, optional=True)],
+                                 workers=[{"name": "w0"}],
+                                 requirements=[{"task": "t0", "resource": "w0"}, {"task": "t1", "resource": "w0"}],
+                                 constraints=[{"id": "a", "kind": "TaskStartAt", "task": "t1", "value": 20}])))
     if tier != "quick":
         # wide sheets: more than 26 columns
         out.append(("wide", fam.base(40, [fam.fx("t0", 12), fam.fx("t1", 27), fam.fx("t2", 1, optional=True)],
